@@ -37,7 +37,9 @@ impl Prop for C01 {
          terminals) + 16..28 input tapes (derived sentences, mutations, random token strings); per \
          table type in {LALR, LALR_PAGER} the grammar is in scope iff the real raw table (GLR \
          algorithm, no preferences) has no multi-action cell; oracle: LRParser::parse(text).is_ok() \
-         == Earley(spec BNF).accepts(tokens). non-trivial = (grammar text, table, input) where the \
+         == Earley(spec BNF).accepts(tokens), under default whitespace skipping or one of four \
+         Layout-rule templates (inputs then carry comments between the tokens), for a fresh parser \
+         per input and once more for one reused parser instance. non-trivial = (grammar text, table, input) where the \
          grammar has a nullable symbol or recursion and the input has >= 2 tokens; distinct by hash \
          of that triple"
             .into()
@@ -65,7 +67,10 @@ impl Prop for C01 {
     }
 
     fn check(&self, case: &GCase, st: &mut Stats) -> Outcome {
-        let spec = &case.spec;
+        let mut spec_l = case.spec.clone();
+        spec_l.layout = layout_kind_of(case.layout_mode);
+        let spec = &spec_l;
+        st.class(&format!("layout-mode-{}", case.layout_mode));
         let text = spec.render();
         let bnf = spec.bnf();
         let (nullable, recursive) = grammar_classes(&bnf);
@@ -108,12 +113,19 @@ impl Prop for C01 {
                 st.discard(&format!("install:{e}"));
                 return Outcome::Pass;
             }
+            // (text, oracle verdict) for the parser-reuse pass
+            let mut session: Vec<(String, bool)> = vec![];
             for (ii, tape) in case.tapes.iter().enumerate() {
                 let toks = gen::tokens_for(&bnf, tape, 12);
                 let mut c = Cursor::new(&tape.tape);
                 let style = if ii % 3 == 0 { LayoutStyle::Ascii } else { LayoutStyle::Minimal };
-                let r = gen::render_tokens(&spec.terms, &toks, style, &mut c);
+                let r = if case.layout_mode > 0 {
+                    gen::render_with_layout(&spec.terms, &toks, layout_kind_of(case.layout_mode), ii % 3 != 0, &mut c)
+                } else {
+                    gen::render_tokens(&spec.terms, &toks, style, &mut c)
+                };
                 let expected = earley.accepts(&toks);
+                session.push((r.text.clone(), expected));
                 st.sub();
                 dynp::reset_steps(LR_STEPS);
                 let real = match guarded(|| dynp::lr_parse(&r.text, RunOpts::default())) {
@@ -143,6 +155,30 @@ impl Prop for C01 {
                         json!({"grammar": text, "table": tt.name(), "input": r.text,
                                "oracle_sentence": expected, "real_ok": real.is_ok()})
                     });
+                }
+            }
+            // the same inputs once more through ONE parser instance: the verdict for every input
+            // must still be the oracle's
+            {
+                let texts: Vec<&str> = session.iter().map(|x| x.0.as_str()).collect();
+                for (k, item) in dynp::lr_parse_session(&texts, RunOpts::default(), LR_STEPS).into_iter().enumerate() {
+                    st.sub();
+                    match item {
+                        Err(p) => return panic_outcome(&format!("reused-parser|parse|table={}", tt.name()), &p),
+                        Ok(r) => {
+                            if r.is_ok() != session[k].1 {
+                                return Outcome::fail(
+                                    format!(
+                                        "reused-parser|accept|table={}|real={}|oracle={}",
+                                        tt.name(),
+                                        if r.is_ok() { "Ok" } else { "Err" },
+                                        if session[k].1 { "sentence" } else { "non-sentence" }
+                                    ),
+                                    format!("grammar:\n{text}\none parser instance parsed, in order: {:?}\ninput #{k}: {:?}", &texts[..=k], texts[k]),
+                                );
+                            }
+                        }
+                    }
                 }
             }
             dynp::uninstall();
